@@ -292,6 +292,11 @@ class SimFile:
             return r
         return self._f.seek(pos, whence)
 
+    def truncate(self, size=None):
+        # a Python-level method (not delegated) so that the scheduler sees the call: check-then-truncate races
+        self._f.flush()
+        return self._f.truncate(size) if size is not None else self._f.truncate()
+
     def close(self):
         if self._f.closed:
             return None
